@@ -169,8 +169,8 @@ struct Hist {
     short_abs: BTreeMap<(u64, u64), i64>,
     /// listing of the TA's stored point: p -> (module, notify)
     ta_view: BTreeMap<u64, (String, bool)>,
-    /// when the previous run ended (ms)
-    last_run_end: i64,
+    /// a run crossed a wall-clock second boundary and kept LastAttempt records the model (Ticks = {FALSE}) drops
+    clock_drift: bool,
     abandoned: bool,
 }
 
@@ -478,13 +478,19 @@ fn advance(rep: &mut Report, h: &mut Hist, b: &Value, factory: &Factory) -> Prog
         let exp_outcome_ok = r["outcome"] == "ok";
         let mut diffs = Vec::new();
         if exp_outcome_ok != ok { diffs.push(format!("outcome: model {} code {:?}", r["outcome"], outcome)) }
-        let cmp = |what: &str, model: &Value, obs: &Obs, diffs: &mut Vec<String>| {
+        // A LastAttempt record written in this run survives the cleanup iff a second boundary lies between the
+        // start of the run and the attempt (see Cleanup.tla); the export assumes it does not.
+        let crossed = t_start / 1000 != t_end / 1000;
+        let mut drift = false;
+        let mut cmp = |what: &str, model: &Value, obs: &Obs, diffs: &mut Vec<String>| {
             let ms = model_stored(&model["stored"]);
             let os = obs.model_view();
-            // LastAttempt records older than the run start are removed only if a full second lies in between
-            let slack = t_start - h.last_run_end < 2100;
             let only_model: Vec<_> = ms.difference(&os).collect();
-            let only_code: Vec<_> = os.difference(&ms).filter(|x| !(slack && x.3 == "att")).collect();
+            let only_code: Vec<_> = os.difference(&ms).filter(|x| {
+                let tolerated = crossed && what == "post" && x.3 == "att";
+                if tolerated { drift = true }
+                !tolerated
+            }).collect();
             if !only_model.is_empty() || !only_code.is_empty() {
                 diffs.push(format!("{what} stored: only model {:?}, only code {:?}", only_model, only_code));
             }
@@ -497,14 +503,17 @@ fn advance(rep: &mut Report, h: &mut Hist, b: &Value, factory: &Factory) -> Prog
         let mt: BTreeSet<String> = set_of(&r["touched"]);
         let ot: BTreeSet<String> = fetched.iter().map(|m| module_name(m)).collect();
         if mt != ot { diffs.push(format!("touched: model {:?} code {:?}", mt, ot)) }
-        if !diffs.is_empty() {
+        if h.clock_drift {
+            rep.add_note(P, "runs_not_compared_after_clock_tick", 1);
+        }
+        else if !diffs.is_empty() {
             rep.divergence(P, format!("history {} run {} ({}): {}", h.idx, ri, r["cfg"], diffs.join("; ")));
             rep.add_note(P, "model_mismatches", 1);
         }
         else {
             rep.add_note(P, "runs_conforming_to_model", 1);
         }
-        h.last_run_end = now_ms();
+        if drift { h.clock_drift = true }
         h.next_run += 1;
     }
     Progress::Finished
@@ -541,7 +550,7 @@ pub fn main(args: &Args) -> i32 {
                     let ids = match work.lock().unwrap().next() { Some(b) => b, None => break };
                     let mut hs: Vec<Hist> = ids.iter().map(|&idx| Hist {
                         idx, bed: TestBed::new(), same_host: (idx as u64 + args.seed) % 2 == 0, next_run: 0, step: 0,
-                        short_abs: BTreeMap::new(), ta_view: BTreeMap::new(), last_run_end: 0, abandoned: false,
+                        short_abs: BTreeMap::new(), ta_view: BTreeMap::new(), clock_drift: false, abandoned: false,
                     }).collect();
                     let mut done = vec![false; hs.len()];
                     loop {
